@@ -60,11 +60,14 @@ var verifSettings = []verifSetting{
 	{envDbPath, []verifLit{{"/env/db", true, 0}}},
 	{envDirCount, []verifLit{{"12345", true, 12345}, {"-1", false, 0}, {"0500", true, 500}, {"1_000", false, 0}, {"0x200", false, 0}, {"0b1100100", false, 0},
 		{"18446744073709551615", true, 18446744073709551615}, {"18446744073709551616", false, 0}, {"+5", false, 0}, {"1e3", false, 0}}},
-	{envRootDirs, []verifLit{{"ea;eb", true, 0}}},
+	{envRootDirs, []verifLit{{"ea;eb", true, 0}, {"ea", true, 0}, {"ea;eb;ec", true, 0}}},
 	{envGCPeriod, []verifLit{{"90s", true, uint64(90 * time.Second)}, {"90", false, 0}, {"1h30m", true, uint64(90 * time.Minute)}, {"5 ms", false, 0}, {"1.5s", true, uint64(1500 * time.Millisecond)}}},
 	{envNumWorkers, []verifLit{{"3", true, 3}, {"x", false, 0}, {"007", true, 7}, {"0x7", false, 0}, {"3.0", false, 0}}},
 	{envSendDuration, []verifLit{{"5ms", true, uint64(5 * time.Millisecond)}, {"ms", false, 0}, {"2us", true, uint64(2 * time.Microsecond)}}},
 }
+
+// the lists the ROOT_DIRS literals stand for (';'-separated)
+var verifRootLists = [][]string{{"ea", "eb"}, {"ea"}, {"ea", "eb", "ec"}}
 
 // state of one variable: 0 absent, 1 set but empty, 2+i = literal i
 func verifEnvValue(i, st int) (string, bool) {
@@ -199,7 +202,7 @@ func VerifH20b() {
 		expRoots = []string{"fr1", "fr2"}
 	}
 	if fromEnv(3) {
-		expRoots = []string{"ea", "eb"}
+		expRoots = verifRootLists[states[3]-2]
 	}
 	nd.Assert(len(got.Storage.RootDirs) == len(expRoots), "H20b.rootDirs-len")
 	if len(got.Storage.RootDirs) == len(expRoots) {
@@ -210,5 +213,20 @@ func VerifH20b() {
 	// the defaults themselves are not modified by parsing
 	nd.Assert(nd.And(defaultConfig.Port == defaultPort, defaultConfig.Storage.DbPath == defaultDbPath, len(defaultConfig.Storage.RootDirs) == 1,
 		defaultConfig.Storage.RootDirs[0] == defaultRootDir), "H20b.defaults-untouched")
+	// ... as a later parse in the same process shows: without file and environment it returns the defaults
+	verifenv.EnvHook = func(key string) (string, bool) { return "", false }
+	later, err := ParseConfig("")
+	nd.Assert(err == nil, "H20b.later-parse-ok")
+	nd.Assert(nd.And(later.Port == defaultPort, later.Storage.DbPath == defaultDbPath, later.Storage.MaxDirCount == defaultDirCount,
+		len(later.Storage.RootDirs) == 1, later.Storage.GCPeriod == defaultGCPeriod, later.WPool.SendDuration == defaultSendDuration), "H20b.later-parse-returns-defaults")
+	if len(later.Storage.RootDirs) == 1 {
+		nd.Assert(later.Storage.RootDirs[0] == defaultRootDir, "H20b.later-parse-returns-defaults")
+	}
+	// and the configuration returned first is not changed by the later parse
+	if len(got.Storage.RootDirs) == len(expRoots) {
+		for i := range expRoots {
+			nd.Assert(got.Storage.RootDirs[i] == expRoots[i], "H20b.earlier-result-stable")
+		}
+	}
 	nd.Reach("H20b.ok")
 }
